@@ -43,6 +43,11 @@ def assemble_overlay(prop, cfg, work, repo):
     lib = open(os.path.join(VERIF, "harness", "common", "zz_vf_lib.go")).read().replace("package PKG", "package " + pkgname)
     open(os.path.join(ov, "zz_vf_lib.go"), "w").write(lib)
     for f in sorted(glob.glob(os.path.join(VERIF, "harness", pkgname, "*.go"))):
+        # in package streams a property's harness file needs that property's generated companion:
+        # take only the files of this property (and the untagged shared ones)
+        m = re.match(r"zz_vf_(c\d\d)", os.path.basename(f))
+        if pkgname == "streams" and m and m.group(1).upper() != prop:
+            continue
         shutil.copy(f, ov)
     for gen in cfg.get("gen", []):
         subprocess.run([sys.executable, os.path.join(VERIF, "checks", gen), os.path.join(repo, "astool"), ov, repo], check=True)
